@@ -175,8 +175,9 @@ func runTraversalCase(c *tvCase, dir string, rep *Report) []tvViol {
 	h := fnv.New32a()
 	h.Write([]byte(canon(c.Kids) + canon(c.Opt)))
 	variant := h.Sum32()
-	dpad, ipad := []int{0, 17}[variant%2], []int{0, 9}[(variant/2)%2]
-	codecName := []string{"mh", "sorted", "none"}[(variant/4)%3]
+	// paddings include exact multiples of the 4 KiB chunk a zero-filling helper would use
+	dpad, ipad := []int{0, 17, 4096, 4097}[variant%4], []int{0, 9, 8192, 4095}[(variant/4)%4]
+	codecName := []string{"mh", "sorted", "none"}[(variant/16)%3]
 	v2opts := []carv2.Option{carv2.AllowDuplicatePuts(!c.Opt.Once)}
 	if c.Opt.Budget >= 0 {
 		v2opts = append(v2opts, carv2.MaxTraversalLinks(uint64(c.Opt.Budget)))
